@@ -42,18 +42,34 @@ def build(rng, i):
         return out
     chain = rng.choice([1, 1, 2, 3])
     roots = [s.root(version=v, cs=cs, sigs=scen.valid([0])) for v in range(1, chain + 1)]
-    a = s.targets(version=2, targets=entries(names_a, "a"), sigs=scen.valid([7]))
+    # in two cases out of five role A delegates further, to a role B of odd name (depth 2), terminating or not
+    nested = i % 5 in (1, 3)
+    role_b = rng.choice(["B", "b b", "x%2Fy", "ß"]) if nested else None
+    names_b = ["a/b/deep"] if nested else []
+    dl = []
+    a_deleg = None
+    if nested:
+        b = s.targets(version=6, targets=entries(names_b, "b"), sigs=scen.valid([8]))
+        a_deleg = {"keys": [8], "roles": [{"name": role_b, "keyids": [8], "threshold": 1, "paths": ["a/b/*"],
+                                          "terminating": rng.random() < 0.5}]}
+        dl.append((role_b, 6, b))
+    a = s.targets(version=2, targets=entries(names_a, "a"), sigs=scen.valid([7]), delegations=a_deleg)
+    dl.insert(0, (role_a, 2, a))
     tgt = s.targets(version=3, targets=entries(names_top, "top"),
-                    delegations={"keys": [7], "roles": [{"name": role_a, "keyids": [7], "threshold": 1, "paths": ["a/*"]}]})
-    snap = s.snapshot(version=4, meta={"targets.json": scen.meta(tgt, 3), role_a + ".json": scen.meta(a, 2)})
+                    delegations={"keys": [7], "roles": [{"name": role_a, "keyids": [7], "threshold": 1, "paths": ["a/*"],
+                                                         "terminating": nested and rng.random() < 0.5}]})
+    metas = {"targets.json": scen.meta(tgt, 3)}
+    for nm, v, d in dl:
+        metas[nm + ".json"] = scen.meta(d, v)
+    snap = s.snapshot(version=4, meta=metas)
     ts = s.timestamp(version=5, meta={"snapshot.json": scen.meta(snap, 4)})
-    files = scen.top_files(cs, ts, snap, 4, tgt, 3, roots=[(v + 1, d) for v, d in enumerate(roots)], delegated=[(role_a, 2, a)])
+    files = scen.top_files(cs, ts, snap, 4, tgt, 3, roots=[(v + 1, d) for v, d in enumerate(roots)], delegated=dl)
     corrupted = None
     if rng.random() < 0.2 and tfiles:
         victim = rng.choice(tfiles)
         victim["content"] = victim["content"] + "-corrupted"
         corrupted = victim["name"]
-    all_names = names_top + names_a
+    all_names = names_top + names_a + names_b
     subset = None if rng.random() < 0.4 else rng.sample(all_names, min(len(all_names), rng.randint(0, 4)))
     root_chain = rng.random() < 0.5
     shipped = roots[-1] if (not root_chain or rng.random() < 0.5) else roots[0]
